@@ -70,9 +70,11 @@ CHECKS = {
     "C04": {
         "title": "concurrent scans are per-key consistent and never lose a stable key",
         "quick": [run("conc_scan_plain", "conc-plain", mode="scan", cursor=0, prop="C04", rounds=2500, repeat=2),
-                  run("conc_scan_asan", "conc-asan", mode="scan", cursor=0, prop="C04", rounds=400)],
+                  run("conc_scan_asan", "conc-asan", mode="scan", cursor=0, prop="C04", rounds=400),
+                  run("conc_scan_micro", "conc-plain", mode="phantom_micro", cursor=0, prop="C04", races=300000)],
         "thorough": [run("conc_scan_plain", "conc-plain", mode="scan", cursor=0, prop="C04", rounds=150000, repeat=6, timeout=3400),
-                     run("conc_scan_asan", "conc-asan", mode="scan", cursor=0, prop="C04", rounds=15000, repeat=2, timeout=3400)],
+                     run("conc_scan_asan", "conc-asan", mode="scan", cursor=0, prop="C04", rounds=15000, repeat=2, timeout=3400),
+                     run("conc_scan_micro", "conc-plain", mode="phantom_micro", cursor=0, prop="C04", races=30000000, repeat=4, timeout=3400)],
         "parallel": {"quick": 1, "thorough": 2},
     },
     "C05": {
